@@ -7,7 +7,7 @@
 //! instantaneous RSSI: all scripted by the harness), and captures the configuration commands the
 //! properties decode (frequency, PA, TX power, symbol timeout, modulation and packet parameters).
 
-use super::ChipModel;
+use super::{Air, AirKind, ChipModel, Held};
 
 // --- command opcodes (datasheet table 11-1 .. 11-5)
 pub const OP_SET_SLEEP: u8 = 0x84;
@@ -119,19 +119,36 @@ pub struct Chip126x {
     /// protocol anomalies (unknown opcode, short command): never expected; reported by the properties
     pub anomalies: Vec<String>,
     pub exchanges: u64,
+    // ---- what the silicon remembers and forgets (datasheet 9.3 / 13.1.1: only a warm start retains the configuration)
+    /// SetPacketType argument (1 = LoRa); None after power-on (the chip then runs its GFSK default)
+    pub packet_type: Option<u8>,
+    /// SetBufferBaseAddress arguments (TX base, RX base)
+    pub buf_base: Option<[u8; 2]>,
+    /// the last SetSleep asked for a cold start: the configuration is gone when the chip wakes up
+    pub cold_sleep: bool,
+    /// number of power-on resets (NRESET, wake-up from a sleep without retention) so far
+    pub power_ons: u32,
+    /// held configuration at the most recent SetTx / SetRx / SetRxDutyCycle / SetCad / SetTxContinuousWave
+    pub air: Option<Air>,
+    pub air_count: u64,
+}
+
+fn reset_regs(regs: &mut [u8; 0x1000]) {
+    *regs = [0u8; 0x1000];
+    // reset values that matter to read-modify-write sequences (datasheet table 12-1)
+    regs[REG_LORA_SYNC_WORD_MSB] = 0x14;
+    regs[REG_LORA_SYNC_WORD_MSB + 1] = 0x24;
+    regs[REG_IQ_POLARITY] = 0x0D;
+    regs[REG_TX_MODULATION] = 0x01;
+    regs[REG_RX_GAIN] = 0x94;
+    regs[REG_TX_CLAMP_CONFIG] = 0xC8;
+    regs[REG_OCP] = 0x18;
 }
 
 impl Chip126x {
     pub fn new() -> Self {
         let mut regs = Box::new([0u8; 0x1000]);
-        // reset values that matter to read-modify-write sequences (datasheet table 12-1)
-        regs[REG_LORA_SYNC_WORD_MSB] = 0x14;
-        regs[REG_LORA_SYNC_WORD_MSB + 1] = 0x24;
-        regs[REG_IQ_POLARITY] = 0x0D;
-        regs[REG_TX_MODULATION] = 0x01;
-        regs[REG_RX_GAIN] = 0x94;
-        regs[REG_TX_CLAMP_CONFIG] = 0xC8;
-        regs[REG_OCP] = 0x18;
+        reset_regs(&mut regs);
         Chip126x {
             regs,
             buffer: [0; 256],
@@ -156,7 +173,57 @@ impl Chip126x {
             last_read_buffer: None,
             anomalies: Vec::new(),
             exchanges: 0,
+            packet_type: None,
+            buf_base: None,
+            cold_sleep: false,
+            power_ons: 0,
+            air: None,
+            air_count: 0,
         }
+    }
+
+    /// NRESET, or waking up from a sleep without retention: registers return to their reset values and
+    /// every configuration command is forgotten (RF frequency, packet type, modulation and packet
+    /// parameters, PA configuration, TX parameters, symbol timeout, sync word, buffer base addresses,
+    /// interrupt flags). What the harness scripts (status byte, reported RX buffer status, packet
+    /// status, flags to raise) and the data buffer content are not chip configuration and stay.
+    pub fn power_on(&mut self) {
+        reset_regs(&mut self.regs);
+        self.mode = Mode::Standby;
+        self.irq = 0;
+        self.clear_captures();
+        self.packet_type = None;
+        self.buf_base = None;
+        self.cold_sleep = false;
+        self.power_ons += 1;
+    }
+
+    /// the configuration the chip holds right now
+    pub fn held(&self) -> Held {
+        let mut symb = Vec::new();
+        if let Some(c) = self.symb_timeout_cmd {
+            symb.push(("SetLoRaSymbNumTimeout", c as u32));
+            if let Some(r) = self.symb_timeout_reg {
+                symb.push(("SYNCH_TIMEOUT-register", Self::decode_synch_timeout(r)));
+            }
+        }
+        Held {
+            lora_mode: self.packet_type == Some(0x01),
+            freq_word: self.rf_freq_steps,
+            modp: self.mod_params,
+            ldro: self.mod_params.map(|m| m[3]),
+            pkt_implicit: self.pkt_params.map(|p| p[2] != 0),
+            pkt_len: self.pkt_params.map(|p| p[3]),
+            pa126: self.pa_config,
+            txp126: self.tx_params,
+            pa127: None,
+            symb,
+        }
+    }
+
+    fn on_air(&mut self, kind: AirKind) {
+        self.air = Some(Air { kind, held: self.held() });
+        self.air_count += 1;
     }
 
     pub fn clear_captures(&mut self) {
@@ -209,8 +276,12 @@ impl ChipModel for Chip126x {
         let op = mosi[0];
         if self.mode == Mode::Sleep {
             // any NSS falling edge wakes the chip; the command itself is executed after wake-up in
-            // this model (busy handling is out of scope here, C14 owns it)
+            // this model (busy handling is out of scope here, C14 owns it). After a sleep without
+            // retention the chip starts over from its power-on state.
             self.mode = Mode::Standby;
+            if self.cold_sleep {
+                self.power_on();
+            }
         }
         match op {
             OP_WRITE_REGISTER => {
@@ -321,25 +392,47 @@ impl ChipModel for Chip126x {
             }
             OP_SET_RX => {
                 if self.need(mosi, 4, "SetRx") {
+                    self.on_air(AirKind::Rx);
                     self.rx_timeout = Some(((mosi[1] as u32) << 16) | ((mosi[2] as u32) << 8) | mosi[3] as u32);
                     self.mode = Mode::Rx;
                     self.irq |= self.irq_on_rx;
                 }
             }
             OP_SET_RX_DUTY_CYCLE => {
+                self.on_air(AirKind::Rx);
                 self.mode = Mode::RxDutyCycle;
                 self.irq |= self.irq_on_rx;
             }
             OP_SET_TX => {
+                self.on_air(AirKind::Tx);
                 self.mode = Mode::Tx;
                 self.irq |= self.irq_on_tx;
             }
             OP_SET_STANDBY => self.mode = Mode::Standby,
             OP_SET_FS => self.mode = Mode::Fs,
-            OP_SET_SLEEP => self.mode = Mode::Sleep,
+            OP_SET_SLEEP => {
+                // sleepConfig bit 2: 0 = cold start, 1 = warm start (configuration retained), table 13-2
+                self.cold_sleep = mosi.len() < 2 || mosi[1] & 0x04 == 0;
+                self.mode = Mode::Sleep;
+            }
             OP_SET_CAD => {
+                self.on_air(AirKind::Cad);
                 self.mode = Mode::Cad;
                 self.irq |= IRQ_CAD_DONE;
+            }
+            OP_SET_TX_CW => {
+                self.on_air(AirKind::TxCw);
+                self.mode = Mode::Tx;
+            }
+            OP_SET_PACKET_TYPE => {
+                if self.need(mosi, 2, "SetPacketType") {
+                    self.packet_type = Some(mosi[1]);
+                }
+            }
+            OP_SET_BUFFER_BASE_ADDRESS => {
+                if self.need(mosi, 3, "SetBufferBaseAddress") {
+                    self.buf_base = Some([mosi[1], mosi[2]]);
+                }
             }
             OP_GET_DEVICE_ERRORS | OP_CLEAR_DEVICE_ERRORS | OP_GET_STATS | OP_GET_PACKET_TYPE => {
                 for m in miso.iter_mut().skip(2) {
@@ -348,7 +441,6 @@ impl ChipModel for Chip126x {
             }
             OP_GET_STATUS
             | OP_STOP_TIMER_ON_PREAMBLE
-            | OP_SET_TX_CW
             | OP_SET_TX_INFINITE_PREAMBLE
             | OP_SET_REGULATOR_MODE
             | OP_CALIBRATE
@@ -357,9 +449,7 @@ impl ChipModel for Chip126x {
             | OP_SET_DIO_IRQ_PARAMS
             | OP_SET_DIO2_RF_SWITCH
             | OP_SET_DIO3_TCXO
-            | OP_SET_PACKET_TYPE
             | OP_SET_CAD_PARAMS
-            | OP_SET_BUFFER_BASE_ADDRESS
             | OP_RESET_STATS => {}
             other => self.anomaly(format!("unknown opcode 0x{other:02X}")),
         }
